@@ -10,6 +10,10 @@ def dispatch (toks : List String) : String :=
   | "C14" :: rest => Poor.Drv.Headers.handle rest
   | "C15" :: rest => Poor.Drv.Html.handleC15 rest
   | "C20" :: rest => Poor.Drv.Html.handleC20 rest
+  | "C01" :: rest => Poor.Drv.Wsgi.handle rest
+  | "C03" :: rest => Poor.Drv.Wsgi.handle rest
+  | "C04" :: rest => Poor.Drv.Wsgi.handle rest
+  | "C05" :: rest => Poor.Drv.Wsgi.handleC05 rest
   | _ => "bad-op"
 
 partial def loop (h : IO.FS.Stream) (out : IO.FS.Stream) : IO Unit := do
